@@ -243,6 +243,9 @@ func CheckTransition(s []*mocrelay.Event, capacity int, e *mocrelay.Event, s2 []
 			}
 			return bad(p, "ephemeral-changes-store", "offering ephemeral event %s changed the retained set (removed %d, added %d)", gen.Short(e.ID), len(removed), len(added))
 		}
+		if k := suppressedBy(); flag && k != nil && k.Pubkey == e.Pubkey && refsE(k)[e.ID] {
+			return bad("C04", "suppressed-ephemeral-reported-new", "ephemeral event %s is named by retained deletion request %s of its author but was reported as new", gen.Short(e.ID), gen.Short(k.ID))
+		}
 		if !flag && suppressedBy() == nil {
 			return bad(propOfReject(), "ephemeral-not-new", "ephemeral event %s is neither duplicate, older nor suppressed but was not reported as new", gen.Short(e.ID))
 		}
